@@ -141,7 +141,8 @@ impl<R: RealNumberInternalTrait> std::ops::Add<Number<R>> for Number<R> {
             NumberBinaryOperand::Integer(a, b) => Number::Integer(a + b),
             NumberBinaryOperand::Real(a, b) => Number::Real(a + b),
             NumberBinaryOperand::Rational(a1, a2, b1, b2) => {
-                Number::Rational(a1 * b2 + a2 * b1, a2 * b2)
+                let (a1, a2, b1, b2) = (a1 as i128, a2 as i128, b1 as i128, b2 as i128);
+                Number::normalized_ratio(a1 * b2 + a2 * b1, a2 * b2)
             }
         }
     }
@@ -154,7 +155,8 @@ impl<R: RealNumberInternalTrait> std::ops::Sub<Number<R>> for Number<R> {
             NumberBinaryOperand::Integer(a, b) => Number::Integer(a - b),
             NumberBinaryOperand::Real(a, b) => Number::Real(a - b),
             NumberBinaryOperand::Rational(a1, a2, b1, b2) => {
-                Number::Rational(a1 * b2 - a2 * b1, a2 * b2)
+                let (a1, a2, b1, b2) = (a1 as i128, a2 as i128, b1 as i128, b2 as i128);
+                Number::normalized_ratio(a1 * b2 - a2 * b1, a2 * b2)
             }
         }
     }
@@ -166,7 +168,9 @@ impl<R: RealNumberInternalTrait> std::ops::Mul<Number<R>> for Number<R> {
         match upcast_oprands((self, rhs)) {
             NumberBinaryOperand::Integer(a, b) => Number::Integer(a * b),
             NumberBinaryOperand::Real(a, b) => Number::Real(a * b),
-            NumberBinaryOperand::Rational(a1, a2, b1, b2) => Number::Rational(a1 * b1, a2 * b2),
+            NumberBinaryOperand::Rational(a1, a2, b1, b2) => {
+                Number::normalized_ratio(a1 as i128 * b1 as i128, a2 as i128 * b2 as i128)
+            }
         }
     }
 }
@@ -177,28 +181,51 @@ impl<R: RealNumberInternalTrait> std::ops::Div<Number<R>> for Number<R> {
         match upcast_oprands((self, rhs)) {
             NumberBinaryOperand::Integer(a, b) => {
                 check_division_by_zero(b)?;
-                match a % b {
-                    0 => Ok(Number::Integer(a / b)),
-                    _ => Ok(Number::Rational(a, b)),
-                }
+                Ok(Number::normalized_ratio(a as i128, b as i128))
             }
             NumberBinaryOperand::Real(a, b) => Ok(Number::Real(a / b)),
             NumberBinaryOperand::Rational(a1, a2, b1, b2) => {
                 check_division_by_zero(b1)?;
                 check_division_by_zero(a2)?;
                 check_division_by_zero(b2)?;
-                Ok(Number::Rational(a1 * b2, a2 * b1))
+                Ok(Number::normalized_ratio(
+                    a1 as i128 * b2 as i128,
+                    a2 as i128 * b1 as i128,
+                ))
             }
         }
     }
 }
 
 impl<R: RealNumberInternalTrait> Number<R> {
+    /// The exact number dividend / divisor (divisor != 0) in lowest terms with a positive
+    /// denominator; an integer when the denominator is 1, and the nearest inexact number when a
+    /// component does not fit the exact representation.
+    pub(crate) fn normalized_ratio(dividend: i128, divisor: i128) -> Number<R> {
+        fn gcd(a: i128, b: i128) -> i128 {
+            if b == 0 {
+                a
+            } else {
+                gcd(b, a % b)
+            }
+        }
+        let divisor_sign = if divisor < 0 { -1 } else { 1 };
+        let common = gcd(dividend.abs(), divisor.abs()).max(1) * divisor_sign;
+        let (dividend, divisor) = (dividend / common, divisor / common);
+        match (i32::try_from(dividend), i32::try_from(divisor)) {
+            (Ok(dividend), Ok(1)) => Number::Integer(dividend),
+            (Ok(dividend), Ok(divisor)) => Number::Rational(dividend, divisor),
+            _ => Number::Real(R::from(dividend).unwrap() / R::from(divisor).unwrap()),
+        }
+    }
+
     pub fn abs(self) -> Number<R> {
         match self {
             Number::Integer(num) => Number::Integer(num.abs()),
             Number::Real(num) => Number::Real(num.abs()),
-            Number::Rational(a, b) => Number::Rational(a.abs(), b.abs()),
+            Number::Rational(a, b) => {
+                Number::normalized_ratio((a as i128).abs(), (b as i128).abs())
+            }
         }
     }
 
